@@ -153,6 +153,8 @@ func checkC19(p *Prog, r *Result, tier string) {
 	checkIndexMatchesDescriptors(p, r, "C19.R8")
 	r.Rule("C19.R9", "no nil map survives decoding: for every map of the object index the decoder contains a make of that map (a JSON null leaves a decoded map nil)", 3)
 	checkDecodedMaps(p, r, "C19.R9")
+	r.Rule("C19.R10", "values the os package returns next to an error (FileInfo, *File) are used as a receiver only where the error of the same call is known to be nil (dominated by the nil edge of a test of that error)", 2)
+	checkOsResultsUnderNilErr(p, r, "C19.R10")
 	r.Rule("C19.R5", "an errored search yields nothing: every Search method that produces objects or deletes reads the search's error before it reads the result slice", 5)
 	r.NotDecided = []string{"hangs", "panics that depend only on internal invariants of the bisection arithmetic (listed as 'internal', not judged)", "panics inside the standard library on hostile input"}
 	c := computeClosures(p)
@@ -801,4 +803,142 @@ func checkDecodedMaps(p *Prog, r *Result, rule string) {
 
 func describeMapField(f *types.Var) string {
 	return types.TypeString(f.Type(), func(p *types.Package) string { return "" })
+}
+
+// ---- C19.R10: values returned next to an error by the os package -------------------------------------------
+
+// checkOsResultsUnderNilErr: (FileInfo, error), (*File, error) ... : the value is nil when the error is not. Every method
+// call on (or dereference of) such a value must sit where `err == nil` is established for the error of the same call:
+// dominated by the nil edge of a test of that error. A test for one error class only (os.IsNotExist) is not enough.
+func checkOsResultsUnderNilErr(p *Prog, r *Result, rule string) {
+	n := 0
+	for _, fn := range p.Funcs {
+		if !inSod(p, fn) {
+			continue
+		}
+		for _, b := range fn.Blocks {
+			for _, in := range b.Instrs {
+				call, ok := in.(*ssa.Call)
+				if !ok {
+					continue
+				}
+				f := call.Call.StaticCallee()
+				if f == nil || f.Pkg == nil || f.Pkg.Pkg.Path() != "os" || f.Signature.Results().Len() != 2 || !isErrorType(f.Signature.Results().At(1).Type()) {
+					continue
+				}
+				if !isPointerLike(f.Signature.Results().At(0).Type()) && !types.IsInterface(f.Signature.Results().At(0).Type()) {
+					continue
+				}
+				var val, errv *ssa.Extract
+				if call.Referrers() != nil {
+					for _, rf := range *call.Referrers() {
+						if ex, ok := rf.(*ssa.Extract); ok {
+							if ex.Index == 0 {
+								val = ex
+							} else {
+								errv = ex
+							}
+						}
+					}
+				}
+				if val == nil || val.Referrers() == nil {
+					continue
+				}
+				// blocks where err == nil is established
+				var nilEdges []*ssa.BasicBlock
+				// the error itself, and when it is kept in a cell (named result captured by a defer) the loads of that
+				// cell that follow the store in the same block
+				var errVals []ssa.Value
+				if errv != nil {
+					errVals = append(errVals, errv)
+					if errv.Referrers() != nil {
+						for _, rf := range *errv.Referrers() {
+							st, ok := rf.(*ssa.Store)
+							if !ok || st.Val != ssa.Value(errv) {
+								continue
+							}
+							after := false
+							for _, bi := range st.Block().Instrs {
+								if bi == ssa.Instruction(st) {
+									after = true
+									continue
+								}
+								if !after {
+									continue
+								}
+								if s2, ok := bi.(*ssa.Store); ok && s2.Addr == st.Addr {
+									break
+								}
+								if ld, ok := bi.(*ssa.UnOp); ok && ld.Op == token.MUL && ld.X == st.Addr {
+									errVals = append(errVals, ld)
+								}
+							}
+						}
+					}
+				}
+				for _, ev := range errVals {
+					if ev.Referrers() == nil {
+						continue
+					}
+					for _, rf := range *ev.Referrers() {
+						bo, ok := rf.(*ssa.BinOp)
+						if !ok || (bo.Op != token.EQL && bo.Op != token.NEQ) || bo.Referrers() == nil {
+							continue
+						}
+						isNilCmp := false
+						for _, op := range []ssa.Value{bo.X, bo.Y} {
+							if c, ok := op.(*ssa.Const); ok && c.IsNil() {
+								isNilCmp = true
+							}
+						}
+						if !isNilCmp {
+							continue
+						}
+						for _, br := range *bo.Referrers() {
+							if ifi, ok := br.(*ssa.If); ok {
+								succ := ifi.Block().Succs[0]
+								if bo.Op == token.NEQ {
+									succ = ifi.Block().Succs[1]
+								}
+								if len(succ.Preds) == 1 {
+									nilEdges = append(nilEdges, succ)
+								}
+							}
+						}
+					}
+				}
+				for _, use := range *val.Referrers() {
+					ci, ok := use.(ssa.CallInstruction)
+					if !ok {
+						if u, ok := use.(*ssa.UnOp); !ok || u.Op != token.MUL {
+							continue
+						}
+					} else {
+						// only uses as the receiver (method call on the possibly nil value)
+						cc := ci.Common()
+						isRecv := (cc.IsInvoke() && cc.Value == ssa.Value(val)) || (!cc.IsInvoke() && cc.Signature().Recv() != nil && len(cc.Args) > 0 && cc.Args[0] == ssa.Value(val))
+						if !isRecv {
+							continue
+						}
+					}
+					n++
+					guarded := false
+					for _, e := range nilEdges {
+						if e == use.Block() || e.Dominates(use.Block()) {
+							guarded = true
+						}
+					}
+					construct := "result of os." + f.Name() + " used under err == nil"
+					if guarded {
+						r.Report(rule, ownerName(p, fn), construct, Discharged, "", p.Pos(use.Pos()), nil, true)
+					} else {
+						r.Report(rule, ownerName(p, fn), construct, Violated, "the value returned by os."+f.Name()+" is used where its error is not known to be nil (a test for one class of error, such as os.IsNotExist, leaves the others): any other failure (not a directory, permission denied, I/O error) yields a nil value and the call panics", p.Pos(use.Pos()), nil, true)
+					}
+				}
+			}
+		}
+	}
+	if n == 0 {
+		r.Report(rule, "-", "no os result is dereferenced", Discharged, "", "", nil, true)
+	}
 }
